@@ -19,7 +19,7 @@ def plan(tier):
     n = 320 if tier == 'quick' else 3000
     return dict(n_cases=n, shards=16, min_nontrivial=n // 3,
                 min_tags={'conn:blade2d': n // 24, 'conn:t2d': n // 24, 'conn:SSycte': n // 16, 'conn:SSxcte': n // 12, 'conn:BFycte': n // 12, 'conn:BFxcte': n // 12, 'conn:SB': n // 12,
-                          'order:p1_after_p2': n // 8, 'pos:interior': n // 8, 'clause:kt_kr': n // 8},
+                          'order:p1_after_p2': n // 8, 'pos:interior': n // 8, 'clause:kt_kr': n // 8, 'ktkr:other_material': n // 60},
                 watchdog_s=1800 if tier == 'quick' else 10000,
                 rule='pairs of panels of different transverse size, series orders, laminates and edge flags but equal interface length, joined by '
                      'each of the five connection kinds at edge and interior interface positions; p1 before or after p2 in the global vector with '
@@ -313,6 +313,46 @@ def run_case(rng, tier, idx):
                 if x is None or y is None:
                     continue
                 c.judge('calc_kt_kr symmetric in the two panels', abs(x - y), 1e-12 * abs(x))
+        # fresh objects (nothing evaluated, no laminate attached yet), the second laminate a relative of the first in 60% of the
+        # cases (same lay-up with other materials / one other ply material / other offset / other thicknesses; per-ply or
+        # uniform argument form): the constants are functions of the two laminates only
+        dA = dict(ad['panels'][0]); dB = dict(ad['panels'][1])
+        rel_kind = 'unrelated'
+        if rng.random() < 0.6:
+            lamA = dict(dA['lam']); lamB = dict(lamA)
+            nply = len(lamA['stack'])
+            rel_kind = str(rng.choice(['other_material', 'one_ply_other_material', 'other_offset', 'other_thicknesses']))
+            if rel_kind == 'other_material':
+                m2 = gen.material(rng, len(lamA['laminaprops'][0]))
+                lamB['laminaprops'] = [list(m2)] * nply
+            elif rel_kind == 'one_ply_other_material':
+                m2 = gen.material(rng, len(lamA['laminaprops'][0]))
+                lps = [list(x) for x in lamA['laminaprops']]
+                lps[int(rng.integers(0, nply))] = list(m2)
+                lamB['laminaprops'] = lps
+            elif rel_kind == 'other_offset':
+                lamB['offset'] = float(lamA['offset'] + rng.uniform(-1, 1) * sum(lamA['plyts']))
+            else:
+                lamB['plyts'] = [float(t_ * rng.uniform(0.5, 2)) for t_ in lamA['plyts']]
+            if rng.random() < 0.7 or rel_kind != 'other_material':
+                lamA['uniform'] = False
+            lamB['uniform'] = False
+            dA['lam'] = lamA; dB['lam'] = lamB
+        c.tag('ktkr:' + rel_kind)
+        c.desc['ktkr_pair'] = {'relation': rel_kind, 'lamA': dA['lam'], 'lamB': dB['lam']}
+        for typ in (('xcte', 'ycte', 'bot-top') if kind == 'SB' else ('xcte', 'ycte')):
+            f1, f2 = gen.build_panel(dA), gen.build_panel(dB)
+            g1, g2 = gen.build_panel(dA), gen.build_panel(dB)
+            u1, u2 = gen.build_panel(dA), gen.build_panel(dB)
+            u1.calc_k0(silent=True); u2.calc_k0(silent=True)
+            x_ = connections.calc_kt_kr(f1, f2, typ)
+            y_ = connections.calc_kt_kr(g2, g1, typ)
+            z_ = connections.calc_kt_kr(u1, u2, typ)
+            for x, y, z in zip(x_, y_, z_):
+                if x is None:
+                    continue
+                c.judge('calc_kt_kr on fresh objects symmetric in the two panels', abs(x - y), 1e-12 * abs(x))
+                c.judge('calc_kt_kr on fresh objects equals calc_kt_kr after the panels evaluated their stiffness', abs(x - z), 1e-12 * abs(x))
         e = float(10 ** rng.uniform(-3, 3))
 
         def scaled(dd):
